@@ -9,6 +9,41 @@ namespace FatVerif
 theorem land63 (x : Nat) : x &&& 63 = x % 64 := Nat.and_two_pow_sub_one_eq_mod x 6
 theorem land15 (x : Nat) : x &&& 15 = x % 16 := Nat.and_two_pow_sub_one_eq_mod x 4
 
+theorem land8 (x : Nat) : x &&& 8 = x / 8 % 2 * 8 := by
+  have h1 : x &&& 8 = (x % 16) &&& 8 := by
+    rw [← land15, Nat.and_assoc]; rfl
+  have h2 : ∀ r, r < 16 → r &&& 8 = r / 8 % 2 * 8 := by decide
+  rw [h1, h2 _ (Nat.mod_lt _ (by decide))]; omega
+
+theorem land16 (x : Nat) : x &&& 16 = x / 16 % 2 * 16 := by
+  have h1 : x &&& 16 = (x % 32) &&& 16 := by
+    rw [← Nat.and_two_pow_sub_one_eq_mod x 5, Nat.and_assoc]; rfl
+  have h2 : ∀ r, r < 32 → r &&& 16 = r / 16 % 2 * 16 := by decide
+  rw [h1, h2 _ (Nat.mod_lt _ (by decide))]; omega
+
+/-- the case flags, the directory and the volume bit as arithmetic -/
+theorem DirFileEntryData.lowercaseBasename_eq (e : DirFileEntryData) :
+    e.lowercaseBasename = decide (e.reserved0 / 8 % 2 = 1) := by
+  unfold DirFileEntryData.lowercaseBasename
+  rw [land8]
+  rcases Nat.mod_two_eq_zero_or_one (e.reserved0 / 8) with h | h <;> simp [h]
+
+theorem DirFileEntryData.lowercaseExt_eq (e : DirFileEntryData) :
+    e.lowercaseExt = decide (e.reserved0 / 16 % 2 = 1) := by
+  unfold DirFileEntryData.lowercaseExt
+  rw [land16]
+  rcases Nat.mod_two_eq_zero_or_one (e.reserved0 / 16) with h | h <;> simp [h]
+
+theorem DirFileEntryData.isDir_eq (e : DirFileEntryData) : e.isDir = decide (e.attrs / 16 % 2 = 1) := by
+  unfold DirFileEntryData.isDir attrContains ATTR_DIRECTORY
+  rw [show (0x10 : Nat) = 16 from rfl, land16]
+  rcases Nat.mod_two_eq_zero_or_one (e.attrs / 16) with h | h <;> simp [h]
+
+theorem DirFileEntryData.isVolume_eq (e : DirFileEntryData) : e.isVolume = decide (e.attrs / 8 % 2 = 1) := by
+  unfold DirFileEntryData.isVolume attrContains ATTR_VOLUME_ID
+  rw [show (0x08 : Nat) = 8 from rfl, land8]
+  rcases Nat.mod_two_eq_zero_or_one (e.attrs / 8) with h | h <;> simp [h]
+
 theorem attrsTruncate_eq (b : Nat) : attrsTruncate b = b % 64 := land63 b
 
 theorem attrsTruncate_lt (b : Nat) : attrsTruncate b < 64 := by
